@@ -211,3 +211,65 @@ Proof.
     rewrite find_upd_any in Fb' by reflexivity. rewrite Fb in Fb'. cbn in Fb'. rewrite (bfind_id _ _ _ Fb), N.eqb_refl in Fb'.
     inversion Fb'; subst b'. unfold is_failed. destruct (existsb _ _); cbn; rewrite ?orb_true_r; reflexivity.
 Qed.
+
+(** ** apply_path / apply on top of the only applied chain never abort *)
+Definition tryblk (s : cst) (x : N) : Prop :=
+  x <> root _ _ s /\ (exists b, bfind (blocks _ _ s) x = Some b /\ is_failed _ b = false) /\
+  on_active_chain pstate ccmd s x = false.
+
+Lemma failed_in (s : cst) (x : N) : Prop.
+Proof. exact (exists b, bfind (blocks _ _ s) x = Some b /\ is_failed _ b = true). Defined.
+
+Lemma apply_path_gen : forall base path s from cur k,
+    alone s cur -> ginv base s -> linked (cores s) cur path ->
+    from = up (cores s) k cur -> Z.of_nat k <= dep s cur ->
+    (forall x, In x path -> tryblk s x) ->
+    exists s' ok, apply_path pstate ccmd cexec cunexec s from path = Ok (s', ok) /\ ginv base s' /\ frame s s' /\
+                  (ok = true -> alone s' (last path cur)) /\
+                  (ok = false -> alone s' from /\ exists x, In x path /\ failed_in s' x).
+Proof.
+  intros base path. induction path as [|x r IH]; intros s from cur k A G L Hfrom Hk Htry.
+  - exists s, true. cbn. split; [reflexivity|]. split; [exact G|].
+    split; [apply frame_refl; exact (proj1 (proj1 (alone_unfold _ _) A))|]. split; [intros _; exact A|discriminate].
+  - destruct L as [(e & He & Hp) Lr]. destruct (Htry x (or_introl eq_refl)) as (Hxr & (b & Fb & Hnf) & Hoac).
+    pose proof (find_cfind _ _ _ Fb) as Cb. rewrite He in Cb. inversion Cb; subst e. change (e_par (core b)) with (b_par ccmd b) in Hp.
+    pose proof (proj1 (alone_unfold _ _) A) as (W & Ta & Hn). pose proof G as ((_ & K) & _ & _).
+    destruct (applyBlock_alone_gen base s cur x b A G Fb Hp Hxr Hnf Hoac) as (s1 & ok1 & E1 & G1 & F1 & Ht1 & Hf1).
+    pose proof (fr_static _ _ F1) as S1.
+    assert (HSb : map (static ccmd) (blocks _ _ s1) = map (static ccmd) (blocks _ _ s)).
+    { exact (staticInv_apply _ _ _ _ _ (eq_refl : staticInv (map (static ccmd) (blocks _ _ s)) s) E1). }
+    cbn [apply_path]. change (applyBlock pstate ccmd cexec cunexec s x) with (c_applyBlock s x). rewrite E1. cbn [bind].
+    destruct ok1.
+    + specialize (Ht1 eq_refl).
+      assert (Hpx : parent (cores s) x = cur) by (unfold parent; rewrite He; exact Hp).
+      pose proof (wf_parent_height _ _ _ W He Hxr) as Hph. change (e_par (core b)) with (b_par ccmd b) in Hph. rewrite Hp in Hph.
+      assert (Htry1 : forall y, In y r -> tryblk s1 y).
+      { intros y Hy. destruct (Htry y (or_intror Hy)) as (Hyr & (by0 & Fy & Hyf) & Hyo). split; [rewrite (fr_root _ _ F1); exact Hyr|]. split.
+        - destruct (static_find _ _ y by0 HSb Fy) as (by1 & Fy1). exists by1. split; [exact Fy1|]. rewrite (apply_ok_flags _ _ _ _ _ _ E1 Fy Fy1). exact Hyf.
+        - rewrite (oac_static s s1 y HSb (fr_tip _ _ F1)). exact Hyo. }
+      destruct (IH s1 from x (S k) Ht1 G1 (linked_static _ _ _ _ S1 Lr)) as (s' & ok & E' & G' & F' & Ht' & Hf').
+      { rewrite (up_static _ _ (S k) x S1). cbn [up]. rewrite Hpx. exact Hfrom. }
+      { unfold dep in *. rewrite (fr_root _ _ F1), !(hgt_static _ _ _ S1). lia. }
+      { exact Htry1. }
+      exists s', ok. split; [exact E'|]. split; [exact G'|]. split; [eapply frame_trans; eassumption|]. split.
+      * intros Hok. specialize (Ht' Hok). destruct r as [|y r']; [exact Ht'|]. change (last (x :: y :: r') cur) with (last (y :: r') cur).
+        rewrite (last_cons_default r' y cur x). exact Ht'.
+      * intros Hok. destruct (Hf' Hok) as (Af & (y & Hy & Fy)). split; [exact Af|]. exists y. split; [right; exact Hy|exact Fy].
+    + specialize (Hf1 eq_refl).
+      destruct (static_find _ _ x b HSb Fb) as (bx & Fx). rewrite Fx.
+      destruct (find_static_hp _ _ _ _ _ HSb Fb Fx) as (_ & Hpx & _). rewrite Hpx, Hp.
+      pose proof G1 as ((W1 & K1) & _ & _).
+      assert (Hk1 : Z.of_nat k <= dep s1 cur) by (unfold dep in *; rewrite (fr_root _ _ F1), !(hgt_static _ _ _ S1); exact Hk).
+      destruct Ta as (ec & Hec & _).
+      pose proof (dep_bound s _ _ W K Hec) as Hdb.
+      destruct (unapply_total k s1 cur (fuel_of pstate ccmd s1) Hf1 K1 Hk1) as (s2 & E2 & A2 & F2).
+      { unfold fuel_of. assert (length (blocks pstate ccmd s1) = length (blocks pstate ccmd s)) by (rewrite <- (map_length (static ccmd) (blocks pstate ccmd s1)), HSb, map_length; reflexivity). lia. }
+      rewrite (up_static _ _ k cur S1), <- Hfrom in E2, A2.
+      assert (Eu : unapply pstate ccmd cunexec s1 cur from = Ok s2) by (unfold unapply; rewrite E2; cbn; rewrite N.eqb_refl; reflexivity).
+      rewrite Eu. cbn [bind]. exists s2, false. split; [reflexivity|]. split; [eapply ginv_unapply_range; eassumption|].
+      split; [eapply frame_trans; eassumption|]. split; [discriminate|]. intros _. split; [exact A2|].
+      exists x. split; [left; reflexivity|].
+      destruct (apply_fail_failed s x s1 W E1) as (bx1 & Fx1 & Hfx1).
+      pose proof (md_unapply_range _ _ _ _ Eu) as M2. destruct (static_find _ _ x bx1 (proj1 M2) Fx1) as (bx2 & Fx2).
+      exists bx2. split; [exact Fx2|]. rewrite (proj1 (md_nobody_failed _ _ _ _ _ M2 Fx1 Fx2)). exact Hfx1.
+Qed.
